@@ -35,7 +35,9 @@ package utils
 
 //@ func IsProbability
 //@   property C15 C18 C20
+//@   nopanic
 //@   ensures result <==> (0.0 <= value && value <= 1.0)
 //@ func IsPositive
 //@   property C05 C20
+//@   nopanic
 //@   ensures result <==> value > 0.0
